@@ -53,8 +53,8 @@ def val_eq(I, x, y):
 
 
 # ------------------------------------------------------------------ FitProperties.__setitem__
-def unit_setitem(tier=None, seed=None):
-    S = Session("C03", "FitProperties.__setitem__", "nanite.fit:FitProperties.__setitem__")
+def unit_setitem(tier=None, seed=None, prop="C03"):
+    S = Session(prop, "FitProperties.__setitem__", "nanite.fit:FitProperties.__setitem__")
     st = {}
 
     def setup(I):
